@@ -126,8 +126,9 @@ class Report:
             'wall_s': round(wall, 3),
             'violations': len(self.violations),
         }
-        with open(os.path.join(VERIF, 'evidence', f'{self.pid}.json'), 'w') as f:
-            json.dump(ev, f, indent=1, default=str)
+        if not os.environ.get('VERIF_NO_EVIDENCE'):
+            with open(os.path.join(VERIF, 'evidence', f'{self.pid}.json'), 'w') as f:
+                json.dump(ev, f, indent=1, default=str)
         print(f'[{self.pid}] tier={self.tier} obligations={self.obligations} discharged={self.discharged} '
               f'distinct={len(self.distinct)} violations={len(self.violations)} known={len(self.known_hits)} '
               f'undecided={len(self.undecided)} wall={wall:.2f}s')
